@@ -1024,7 +1024,7 @@ def run(tier):
             pf['broken'].append('Refuted.v: a refutation witness no longer checks')
 
     rnd = lib.rng('C14')
-    n_fam, n_single, n_par, n_inp, n_x = (900, 1400, 700, 250, 3) if not thorough else (9000, 14000, 6000, 2500, 4)
+    n_fam, n_single, n_par, n_inp, n_x = (650, 900, 450, 150, 3) if not thorough else (9000, 14000, 6000, 2500, 4)
     # ---- cases: corpus first
     lines = []         # generated case lines
     meta = []          # (family index or None, mutation kind)
@@ -1058,7 +1058,7 @@ def run(tier):
     xr = lib.rng('C14x')
     xlines = []
     for (case, res, pr, bad) in obs:
-        if res.startswith('ok ') and xr.random() < (0.5 if not thorough else 0.7):
+        if res.startswith('ok ') and xr.random() < (0.4 if not thorough else 0.7):
             pv = case.split(' ')[1]
             h = res.split(' ')[1]
             data = b'' if h == '-' else bytes.fromhex(h)
@@ -1138,8 +1138,8 @@ def run(tier):
     if model is not None:
         cr = lib.rng('C14coq')
         pool = [i for i in idx_model if len(obs[i][0]) < 6000]
-        sample = sorted(cr.sample(pool, min(60 if not thorough else 300, len(pool))))
-        xs = sorted(cr.sample(range(len(xlines)), min(20 if not thorough else 100, len(xlines)))) if xlines else []
+        sample = sorted(cr.sample(pool, min(40 if not thorough else 300, len(pool))))
+        xs = sorted(cr.sample(range(len(xlines)), min(15 if not thorough else 100, len(xlines)))) if xlines else []
         exprs = []
         kinds = []
         for i in sample:
